@@ -458,7 +458,7 @@ namespace ipr {
                case '\1':
                case '\2':
                case '\3':
-                  pp << "\\0" << std::oct << static_cast<int>(*cur);
+                  pp << "\\0" << static_cast<int>(*cur);
                   break;
                }
       }
